@@ -174,7 +174,7 @@ def run_driver_parallel(driver, outdir, seed0, runs, nproc, args, deadline=600):
         records = []
         cur, left = s, n
         guard = 0
-        while left > 0 and guard < 50:
+        while left > 0 and guard < 5:
             guard += 1
             sub = f"{d}/part{guard}"
             cmd = [BIN, driver, "--seed", str(cur), "--runs", str(left), "--out", sub] + args
